@@ -54,7 +54,7 @@ var reCollection = regexp.MustCompile(`^([a-z]|X[0-9]+)s$`)
 func C07(e *core.Env) {
 	res := e.Res
 	res.Rule = "cases = well-formed declarative profiles that must compile: (a) N nested constraints side by side in one validation, N in 1..40 crossing the 25-letter boundary (quick: 14 values, thorough: all), (b) nesting depth 1..7, (c) 1..30 validations over the three levels, (d) every documented constraint kind x path shape (single, sequence, alternative, inverse, alternative inside a sequence inside an alternative, @type), (e) several constraints of one kind in one rule body (or / if / not-and), with messages of 0..3 placeholders, (f) seeded random formulas; " +
-		"for (a) and (b) the quantified variables and collections found in the real module (parsed with the engine's parser) must be exactly the model's var_name / plural; (i) the string literal written for 12 patterns and the set literal written for 6 value lists, text against text with the Coq model; (h) 28 legal but degenerate / unusual arguments (empty lists, zero counts, patterns with a backtick / quote / backslash class / newline, path keys over several lines or with tabs, zero / negative / float bounds, quantifier counts 0 and 10^6) plain and under not; (g) 24 texts (each control / format / astral / quoting character on its own) x {profile name, validation name, message, list value}; non-trivial = every case; distinct by profile text"
+		"for (a) and (b) the quantified variables and collections found in the real module (parsed with the engine's parser) must be exactly the model's var_name / plural; (i) the string literal written for 12 patterns and the set literal written for 6 value lists, text against text with the Coq model; (h) 28 legal but degenerate / unusual arguments (empty lists, zero counts, patterns with a backtick / quote / backslash class / newline, path keys over several lines or with tabs, zero / negative / float bounds, quantifier counts 0 and 10^6) plain and under not; (j) 8 level listings (a validation under two / three levels, twice under one level, a level listing only validations another level lists too); (k) histories: two well-formed profiles compiled three times after each of 6 refused profiles (undeclared prefix in a path / class / placeholder, broken Rego, a non-path, no YAML); (g) 24 texts (each control / format / astral / quoting character on its own) x {profile name, validation name, message, list value}; non-trivial = every case; distinct by profile text"
 	compile := func(label, profile string, known func(err error) bool) bool {
 		_, err := pkg.CompileProfile(profile, false, nil)
 		if err == nil {
@@ -392,6 +392,56 @@ func C07(e *core.Env) {
 				res.Violate("model-mismatch", "the set literal the generator writes for "+kind+" "+fmt.Sprintf("%q", vals)+" differs from Escape.string_set_literal",
 					map[string]any{"no_failing_input_found": true, "broken": "correspondence Escape.string_set_literal vs generator/quote.go", "profile": p, "impl_literal": got, "model_literal": want})
 			}
+		}
+	}
+	// (j) level listings: a validation listed under two or three levels, twice under one level, a level that lists only
+	// validations another level lists too
+	{
+		va := c07Validation("a", map[string]any{"propertyConstraints": map[string]any{"ex.p": map[string]any{"minCount": 1}}}, "a {{ex.a}}")
+		vb := c07Validation("b", map[string]any{"propertyConstraints": map[string]any{"ex.q": map[string]any{"nested": leafPC}}}, "b")
+		for li, listing := range []string{"violation:\n  - a\nwarning:\n  - a\n", "warning:\n  - a\nviolation:\n  - a\n", "violation:\n  - a\n  - b\ninfo:\n  - a\n", "violation:\n  - a\nwarning:\n  - a\ninfo:\n  - a\n",
+			"info:\n  - a\n  - a\n", "violation:\n  - b\nwarning:\n  - a\n  - b\ninfo:\n  - b\n", "info:\n  - a\nwarning:\n  - b\n  - a\n", "violation:\n  - a\n  - b\n  - a\nwarning:\n  - b\n"} {
+			compile(fmt.Sprintf("level listing %d", li), header+listing+"validations:\n"+va+vb, nil)
+			res.Case(fmt.Sprintf("level-listing %d", li), true)
+			res.Count("family=level-listings")
+		}
+	}
+	// (k) histories: a well-formed profile compiles whatever was submitted to the process before it - a profile refused by the
+	// parser, by the code generator (undeclared prefix), by the engine's compiler (broken embedded Rego), or another good one
+	{
+		good := header + "violation:\n  - g\nvalidations:\n" + c07Validation("g", map[string]any{"propertyConstraints": map[string]any{"ex.p / ex.q": map[string]any{"minCount": 1, "nested": leafPC}}}, "g {{ex.a}}")
+		good2 := header + "warning:\n  - h\nvalidations:\n" + c07Validation("h", map[string]any{"or": []any{leafPC, map[string]any{"propertyConstraints": map[string]any{"ex.r": map[string]any{"in": []any{"x"}}}}}}, "h")
+		refused := map[string]string{
+			"undeclared prefix in a path":       strings.Replace(good, "ex.p / ex.q", "acme.p / ex.q", 1),
+			"undeclared prefix in targetClass":  strings.Replace(good, "targetClass: ex.", "targetClass: acme.", 1),
+			"broken embedded Rego":              header + "violation:\n  - r\nvalidations:\n  r:\n    targetClass: ex.T\n    message: r\n    rego: |\n      this is ( not rego\n",
+			"not a path":                        strings.Replace(good, "ex.p / ex.q", "ex.p / / ex.q", 1),
+			"no YAML at all":                    "profile: [unclosed\n  - : :\n",
+			"undeclared prefix in a placeholder": strings.Replace(good, "{{ex.a}}", "{{acme.a}}", 1),
+		}
+		rnames := []string{}
+		for n := range refused {
+			rnames = append(rnames, n)
+		}
+		sort.Strings(rnames)
+		hist := []string{}
+		for _, n := range rnames {
+			func() {
+				defer func() { recover() }()
+				pkg.CompileProfile(refused[n], false, nil)
+			}()
+			hist = append(hist, "CompileProfile(a profile with "+n+")")
+			for k, g := range []string{good, good2, good} {
+				_, err := pkg.CompileProfile(g, false, nil)
+				hist = append(hist, fmt.Sprintf("CompileProfile(well-formed profile %d)", k%2+1))
+				if err != nil {
+					res.Violate("impl-violates-property", "a well-formed declarative profile does not compile after a profile with "+n+" was submitted: "+core.Trunc(err.Error(), 200),
+						map[string]any{"history": append([]string{}, hist...), "refused_profile": refused[n], "profile": g, "error": core.Trunc(err.Error(), 1500)})
+					break
+				}
+			}
+			res.Case("history after "+n, true)
+			res.Count("family=histories")
 		}
 	}
 	// the model's declaration list, for the record
